@@ -47,7 +47,7 @@ import (
 //      s2.Decode (absent = corrupt) and block-index sums of what the packfile contains.
 //   obs  = (status (blk...) (blkidx...) (tbl...) (tblidx...) (tblsum...) (com...)) sorted keys
 // Oracle (independent of the model): status is 0 or 1; bytes allocated during the call
-// <= 64*len(input) + 1 MiB; the call returns within 10 s; after Receive every stored table has
+// <= 64*len(input) + 1 MiB; the call returns within 60 s; after Receive every stored table has
 // all its blocks, block indices, table index and profile, every stored block decompresses
 // and validates, every stored commit has its parents.
 
@@ -182,7 +182,7 @@ func c17Guarded(exact bool, f func() *xt.T) (obs *xt.T, panicMsg string, alloc u
 	select {
 	case r := <-ch:
 		obs, panicMsg = r.obs, r.msg
-	case <-time.After(10 * time.Second):
+	case <-time.After(60 * time.Second):
 		return xt.N(xt.LI(3)), "", 0, true
 	}
 	if exact {
@@ -201,7 +201,16 @@ func runC17(ctx *Ctx, c *xt.T) (*xt.T, Verdict) {
 	entry := int(c.Kids[0].N)
 	b := c.Kids[1].AsBytes()
 	if entry == c17Receive {
-		return c17RunReceive(b)
+		var fp [3]int
+		if len(c.Kids) > 5 {
+			for i := 0; i < 3; i++ {
+				fp[i] = int(c.Kids[5].Kids[i].N)
+			}
+		}
+		return c17RunReceive(b, fp)
+	}
+	if entry >= 30 && entry <= 35 {
+		return c17RunStore(entry, b, c.Kids[2].N != 0)
 	}
 	full := b
 	if entry == 22 || entry == 23 {
@@ -215,7 +224,7 @@ func runC17(ctx *Ctx, c *xt.T) (*xt.T, Verdict) {
 	}
 	switch {
 	case timedOut:
-		return obs, Fail("decoder-timeout", "entry %d did not return within 10s on %d bytes", entry, len(b))
+		return obs, Fail("decoder-timeout", "entry %d did not return within 60s on %d bytes", entry, len(b))
 	case pmsg != "":
 		return obs, Fail("decoder-panic", "entry %d panicked on %x: %s", entry, b, pmsg)
 	case alloc > c17Budget(len(b)):
@@ -256,28 +265,58 @@ func c17Keys(db *objmock.Store, prefix string) [][]byte {
 	return out
 }
 
-// c17S2Excess reports whether the packfile holds a block object whose s2 header announces
-// more decoded bytes than the allocation budget of the whole packfile (known finding).
-func c17S2Excess(pack []byte) bool {
-	pr, err := packfile.NewPackfileReader(io.NopCloser(bytes.NewReader(pack)))
-	if err != nil {
-		return false
-	}
-	for {
-		ot, b, err := pr.ReadObject()
+// c17S2Announced is the largest decoded length announced by the s2 header of a block
+// object of the packfile.
+func c17S2Announced(pack []byte) uint64 {
+	var best uint64
+	func() {
+		defer func() { recover() }()
+		pr, err := packfile.NewPackfileReader(io.NopCloser(bytes.NewReader(pack)))
 		if err != nil {
-			return false
+			return
 		}
-		if ot == packfile.ObjectBlock {
-			if n, err := s2.DecodedLen(b); err == nil && uint64(n) > c17Budget(len(pack)) {
-				return true
+		for i := 0; i < 1<<16; i++ {
+			ot, b, err := pr.ReadObject()
+			if err != nil {
+				return
+			}
+			if ot == packfile.ObjectBlock {
+				if n, err := s2.DecodedLen(b); err == nil && uint64(n) > best {
+					best = uint64(n)
+				}
 			}
 		}
-	}
+	}()
+	return best
 }
 
-func c17RunReceive(pack []byte) (*xt.T, Verdict) {
+func c17S2Excess(pack []byte) bool { return c17S2Announced(pack) > c17Budget(len(pack)) }
+
+// c17Receive1 runs Receive once over a fresh fault store (no measurement).
+func c17Receive1(pack []byte, fp [3]int) (err error, db *objmock.Store, fs *c17FaultStore) {
+	db = objmock.NewStore()
+	fs = &c17FaultStore{Store: db, setAt: fp[0] - 1, kind: fp[1] - 1, getAt: fp[2] - 1}
+	defer func() {
+		if r := recover(); r != nil {
+			err = fmt.Errorf("panic: %v", r)
+		}
+	}()
+	pr, e := packfile.NewPackfileReader(io.NopCloser(bytes.NewReader(pack)))
+	if e != nil {
+		return e, db, fs
+	}
+	_, err = apiutils.NewObjectReceiver(fs, nil, logr.Discard()).Receive(pr, nil)
+	return err, db, fs
+}
+
+func c17RunReceive(pack []byte, fp [3]int) (*xt.T, Verdict) {
 	db := objmock.NewStore()
+	fs := &c17FaultStore{Store: db, setAt: fp[0] - 1, kind: fp[1] - 1, getAt: fp[2] - 1}
+	if !bytes.Equal(pack, c17S2Witness) && c17S2Announced(pack) > c17Predict {
+		// one real 4 GiB allocation per run (the fixed witness) is enough: classify the others
+		// from the announced length without running Receive
+		return xt.N(xt.LI(1)), Fail("receive-alloc-s2", "not run: a block object of this %d-byte packfile announces %d decoded bytes, which s2.Decode allocates before decoding", len(pack), c17S2Announced(pack))
+	}
 	var rerr error
 	obs, pmsg, alloc, timedOut := c17Guarded(true, func() *xt.T {
 		pr, err := packfile.NewPackfileReader(io.NopCloser(bytes.NewReader(pack)))
@@ -285,7 +324,7 @@ func c17RunReceive(pack []byte) (*xt.T, Verdict) {
 			rerr = err
 			return nil
 		}
-		rc := apiutils.NewObjectReceiver(db, nil, logr.Discard())
+		rc := apiutils.NewObjectReceiver(fs, nil, logr.Discard())
 		_, rerr = rc.Receive(pr, nil)
 		return nil
 	})
@@ -297,7 +336,7 @@ func c17RunReceive(pack []byte) (*xt.T, Verdict) {
 		status = 2
 	}
 	if timedOut {
-		return obs, Fail("receive-timeout", "Receive did not return within 10s")
+		return obs, Fail("receive-timeout", "Receive did not return within 60s")
 	}
 	obs = xt.N(xt.LI(status))
 	for _, p := range c17Prefixes {
@@ -579,6 +618,7 @@ func c17GenReceive(ctx *Ctx, add func(tag string, nt bool, c *xt.T)) {
 		objs := w.all()
 		add("recv-valid", true, c17ReceiveCase(c17Pack(objs)))
 		ctx.Count("recv_valid")
+		c17GenFaults(ctx, c17Pack(objs), add)
 		// one object dropped / reordered / corrupted
 		for k := 0; k < 6; k++ {
 			mut := append([]c17Obj{}, objs...)
@@ -665,6 +705,58 @@ func c17Seeds(ctx *Ctx, entry int) [][]byte {
 	return out
 }
 
+// c17Mutations feeds emit with the seed and the mutation families of the property:
+// truncation at EVERY offset, every bit of the first 24 bytes and 16 random bits, counts /
+// lengths overwritten at every offset of the first 48 bytes, trailing garbage, altered labels.
+func c17Mutations(ctx *Ctx, seed []byte, emit func(tag string, m []byte)) {
+	emit("valid", seed)
+	for cut := 0; cut < len(seed); cut++ {
+		emit("truncated", seed[:cut])
+	}
+	hdr := len(seed)
+	if hdr > 24 {
+		hdr = 24
+	}
+	for i := 0; i < hdr; i++ {
+		for bit := 0; bit < 8; bit++ {
+			m := append([]byte{}, seed...)
+			m[i] ^= 1 << uint(bit)
+			emit("bitflip", m)
+		}
+	}
+	for k := 0; k < 16 && len(seed) > 0; k++ {
+		m := append([]byte{}, seed...)
+		m[ctx.Pick(len(m))] ^= 1 << uint(ctx.Pick(8))
+		emit("bitflip", m)
+	}
+	big := [][]byte{{0xff, 0xff, 0xff, 0xff}, {0x7f, 0xff, 0xff, 0xff}, {0x80, 0, 0, 0}, {0, 0x80, 0, 0}, {0, 1, 0, 0}, {0, 0, 4, 1}, {0, 0, 1, 1}, {0xff, 0xff}}
+	lim := len(seed)
+	if lim > 48 {
+		lim = 48
+	}
+	for i := 0; i < lim; i++ {
+		for _, v := range big {
+			if i+len(v) > len(seed) {
+				continue
+			}
+			m := append([]byte{}, seed...)
+			copy(m[i:], v)
+			emit("inflated", m)
+		}
+	}
+	for k := 0; k < 4; k++ {
+		m := append(append([]byte{}, seed...), byte(ctx.Pick(256)), byte(ctx.Pick(256)))
+		emit("trailing", m)
+	}
+	for i := 0; i+1 < len(seed); i++ {
+		if seed[i+1] == ' ' && seed[i] >= 'a' && seed[i] <= 'z' {
+			m := append([]byte{}, seed...)
+			m[i] = 'X'
+			emit("label", m)
+		}
+	}
+}
+
 var c17Entries = []int{0, 1, 2, 3, 4, 5, 6, 7, 8, 9, 10, 11, 12, 13, 14, 15, 16, 17, 18, 19, 21}
 
 func genC17(ctx *Ctx) []Case {
@@ -731,55 +823,10 @@ func genC17(ctx *Ctx) []Case {
 	// mutation of valid encodings
 	for _, entry := range c17Entries {
 		for _, seed := range c17Seeds(ctx, entry) {
-			addB("valid", entry, seed)
-			for cut := 0; cut < len(seed); cut++ { // truncation at EVERY offset
-				addB("truncated", entry, seed[:cut])
-			}
-			hdr := len(seed)
-			if hdr > 24 {
-				hdr = 24
-			}
-			for i := 0; i < hdr; i++ { // every bit of the header
-				for bit := 0; bit < 8; bit++ {
-					m := append([]byte{}, seed...)
-					m[i] ^= 1 << uint(bit)
-					addB("bitflip", entry, m)
-				}
-			}
-			for k := 0; k < 16 && len(seed) > 0; k++ { // random bits anywhere
-				m := append([]byte{}, seed...)
-				m[ctx.Pick(len(m))] ^= 1 << uint(ctx.Pick(8))
-				addB("bitflip", entry, m)
-			}
-			big := [][]byte{{0xff, 0xff, 0xff, 0xff}, {0x7f, 0xff, 0xff, 0xff}, {0x80, 0, 0, 0}, {0, 0x80, 0, 0}, {0, 1, 0, 0}, {0, 0, 4, 1}, {0, 0, 1, 1}, {0xff, 0xff}}
-			lim := len(seed)
-			if lim > 48 {
-				lim = 48
-			}
-			for i := 0; i < lim; i++ { // inflated counts / lengths at every header offset
-				for _, v := range big {
-					if i+len(v) > len(seed) {
-						continue
-					}
-					m := append([]byte{}, seed...)
-					copy(m[i:], v)
-					addB("inflated", entry, m)
-				}
-			}
-			for k := 0; k < 4; k++ { // trailing garbage
-				m := append(append([]byte{}, seed...), byte(ctx.Pick(256)), byte(ctx.Pick(256)))
-				addB("trailing", entry, m)
-			}
-			// wrong labels: alter one letter of every label-like run
-			for i := 0; i+1 < len(seed); i++ {
-				if seed[i+1] == ' ' && seed[i] >= 'a' && seed[i] <= 'z' {
-					m := append([]byte{}, seed...)
-					m[i] = 'X'
-					addB("label", entry, m)
-				}
-			}
+			c17Mutations(ctx, seed, func(tag string, m []byte) { addB(tag, entry, m) })
 		}
 	}
+	c17GenStore(ctx, add)
 	// short raw strings
 	alpha := []byte{0x00, 0x01, 0x80, 0xff}
 	var rec func(prefix []byte, depth int)
